@@ -4,6 +4,8 @@ import json, os, re, shutil, subprocess, sys, tempfile, time, glob, hashlib
 
 VERIF = os.path.dirname(os.path.dirname(os.path.abspath(__file__)))
 REPO = os.environ.get("VERIF_REPO", "/repo")
+# where evidence/ and replays/ are written: /verif, unless a seeded-change run redirects them (tools/seeded.py)
+OUT = os.environ.get("VERIF_OUT")
 SPEC = os.path.join(VERIF, "spec")
 GOENV = dict(GOFLAGS="-mod=mod", GOPROXY="off", GOSUMDB="off", GOTOOLCHAIN="local")
 NCPU = os.cpu_count() or 4
@@ -47,7 +49,19 @@ class Work:
         if r.returncode != 0:
             raise Inconclusive("overlay generation failed: " + r.stderr.strip())
         env = dict(os.environ, **GOENV)
-        hdir = os.path.join(VERIF, "harness")
+        # the harness module is built from a scratch copy: its go.mod points at the tree under test
+        # (VERIF_REPO, default /repo) and nothing under /verif is written at check time
+        hdir = self.path("hsrc", "x")[:-2]
+        src = os.path.join(VERIF, "harness")
+        for f in os.listdir(src):
+            if f.endswith(".go"):
+                shutil.copy(os.path.join(src, f), hdir)
+        gm = open(os.path.join(src, "go.mod")).read()
+        gm, n = re.subn(r"(?m)^(replace github.com/aukilabs/hagall => ).*$", lambda m: m.group(1) + os.path.abspath(REPO), gm)
+        if n != 1:
+            raise Inconclusive("harness/go.mod: replace directive not found")
+        with open(os.path.join(hdir, "go.mod"), "w") as f:
+            f.write(gm)
         shutil.copy(os.path.join(REPO, "go.sum"), os.path.join(hdir, "go.sum"))
         out = self.path("bin", "harness")
         r = subprocess.run(["go", "build", "-tags", "verif", "-overlay", os.path.join(ov, "overlay.json"), "-o", out, "."],
@@ -55,6 +69,7 @@ class Work:
         if r.returncode != 0:
             raise Inconclusive("harness build failed (the tree under test does not compile with the verif overlay):\n" + r.stderr[-3000:])
         self.overlay = os.path.join(ov, "overlay.json")
+        self.hsrc = hdir
         self.harness = out
         self.log("harness built")
         return out
@@ -128,11 +143,12 @@ def write_evidence(work, level, coverage, assumptions, violations=0, extra=None)
               assumptions=assumptions, wall_s=round(time.time() - work.t0, 2), violations=violations)
     if extra:
         ev.update(extra)
-    os.makedirs(os.path.join(VERIF, "evidence"), exist_ok=True)
-    tmp = os.path.join(VERIF, "evidence", work.prop + ".json.tmp")
+    base = OUT or VERIF
+    os.makedirs(os.path.join(base, "evidence"), exist_ok=True)
+    tmp = os.path.join(base, "evidence", work.prop + ".json.tmp")
     with open(tmp, "w") as f:
         json.dump(ev, f, indent=1, sort_keys=True, default=str)
-    os.replace(tmp, os.path.join(VERIF, "evidence", work.prop + ".json"))
+    os.replace(tmp, os.path.join(base, "evidence", work.prop + ".json"))
 
 
 def load_known():
@@ -154,7 +170,7 @@ def known_match(prop, signature):
 
 
 def save_replay(prop, name, obj_lines):
-    d = os.path.join(VERIF, "replays")
+    d = os.path.join(OUT or VERIF, "replays")
     os.makedirs(d, exist_ok=True)
     p = os.path.join(d, "%s-%s.ndjson" % (prop, re.sub(r"[^A-Za-z0-9_.-]", "_", name)))
     with open(p, "w") as f:
